@@ -314,12 +314,17 @@ class ThreeQubitDiagonalGate(raw_types.Gate):
                 [1, 1, -1, -1, 1, 1, -1],
             ]
         )
-        shifted_angles_tail = [
-            angle - self._diag_angles_radians[0] for angle in self._diag_angles_radians[1:]
+        # The circuit below acts on (a, b, c), which may be a reordering of `qubits`: index the
+        # diagonal by the reordered qubits.
+        positions = [qubits.index(q) for q in (a, b, c)]
+        diag_angles_radians = [
+            self._diag_angles_radians[sum(((i >> (2 - k)) & 1) << (2 - positions[k]) for k in range(3))]
+            for i in range(8)
         ]
+        shifted_angles_tail = [angle - diag_angles_radians[0] for angle in diag_angles_radians[1:]]
         phase_solutions = phase_matrix_inverse.dot(shifted_angles_tail)
         p_gates = [pauli_gates.Z ** (solution / np.pi) for solution in phase_solutions]
-        global_phase = 1j ** (2 * self._diag_angles_radians[0] / np.pi)
+        global_phase = 1j ** (2 * diag_angles_radians[0] / np.pi)
         global_phase_operation = (
             [global_phase_op.global_phase_operation(global_phase)]
             if protocols.is_parameterized(global_phase) or abs(global_phase - 1.0) > 0
